@@ -119,7 +119,13 @@ def C18_periodic_ignored(case, params):
     """a periodic surface (negative pointer on the card, or periodic_surface assigned before the call) next to a
     surface of the same mnemonic, or pointed to by one; gone when no surface is periodic"""
     c = case.get("case")
-    if not c or case.get("kind") not in PER_KINDS:
+    if not c:
+        return False
+    if case.get("kind") == "exception:BrokenObjectLinkError":
+        # an earlier call removed the partner of a periodic surface: the next call cannot resolve the number
+        if not any(p[0] == "dedup" for p in c.get("pre", [])):
+            return False
+    elif case.get("kind") not in PER_KINDS:
         return False
     ss = surfaces_of(c["text"])
     per_text = [s for s in ss if s[2] is not None and s[2] < 0]
@@ -133,7 +139,7 @@ def C18_periodic_ignored(case, params):
             return card[:m.start(3)] + card[m.end(3):]
         return card
     c2 = dict(c, text=_rewrite(c["text"], 1, drop), pre=[p for p in c.get("pre", []) if p[0] not in ("set_per", "del_per")])
-    return not _still(c2, PER_KINDS)
+    return not _still(c2, (case["kind"],))
 
 
 # ----------------------------------------------------------------------------- F-C18-rotation-ignored
@@ -223,20 +229,29 @@ def C18_rotation_index_error(case, params):
 
 
 # ----------------------------------------------------------------------------- F-C18-pointers-rerun
-RERUN_KINDS = ("survivor-pointer-changed", "file-survivor-changed", "exception:BrokenObjectLinkError")
-RERUN_OPS = ("set_tr", "del_tr", "set_per", "del_per", "renum_surf", "renum_tr")
+RERUN_KINDS = ("survivor-pointer-changed", "file-survivor-changed", "exception:BrokenObjectLinkError",
+               "exception:MalformedInputError")
+RERUN_OPS = ("set_tr", "del_tr", "set_per", "del_per", "renum_surf", "renum_tr", "renum_to_freed")
+_CELLMOD = re.compile(r"^(vol|u|lat|fill)\b", re.I)
 
 
 def C18_pointers_rerun(case, params):
-    """a transform / periodic surface was assigned or deleted, or a surface / transform renumbered, before the call:
-    the call resolves the pointers again from the numbers remembered from the read; gone without those edits"""
+    """a transform / periodic surface was assigned or deleted, or a surface / transform renumbered, before the call,
+    or the data block holds a VOL / U / LAT / FILL card: the call resolves the pointers again from the numbers
+    remembered from the read and merges the data-block cards a second time; gone without those edits / cards"""
     c = case.get("case")
     if not c or case.get("kind") not in RERUN_KINDS:
         return False
     pre = c.get("pre", [])
-    if not any(p[0] in RERUN_OPS for p in pre):
+    parts = _blocks(c["text"])
+    cards = _cards(parts[2]) if parts and len(parts) > 2 else []
+    has_ops = any(p[0] in RERUN_OPS for p in pre)
+    has_cards = any(_CELLMOD.match(card) for card in cards)
+    if not has_ops and not has_cards:
         return False
     c2 = dict(c, pre=[p for p in pre if p[0] not in RERUN_OPS])
+    if has_cards:
+        c2["text"] = _rewrite(c["text"], 2, lambda card: "c " + card if _CELLMOD.match(card) else card)
     return not _still(c2, (case["kind"],))
 
 
